@@ -254,6 +254,31 @@ class PSyDataTrans(RegionTrans):
             raise TransformationError("A PSyData node cannot be inserted "
                                       "inside an OpenACC region.")
 
+        # An EXIT or CYCLE statement (currently represented by a CodeBlock)
+        # inside the region must not transfer control out of it, otherwise
+        # the region would be entered but never left.
+        # pylint: disable=import-outside-toplevel
+        from fparser.two import Fortran2003
+        from psyclone.psyir.nodes import CodeBlock, Loop, WhileLoop
+        for node in node_list:
+            for block in node.walk(CodeBlock):
+                for stmt in block.get_ast_nodes:
+                    if not isinstance(stmt, (Fortran2003.Exit_Stmt,
+                                             Fortran2003.Cycle_Stmt)):
+                        continue
+                    loop = block.ancestor((Loop, WhileLoop))
+                    # A named EXIT/CYCLE may refer to an outer loop so
+                    # only an un-named one whose loop is inside the region
+                    # is known to be safe.
+                    if stmt.items[1] is None and loop and any(
+                            loop is inner for top in node_list
+                            for inner in top.walk((Loop, WhileLoop))):
+                        continue
+                    raise TransformationError(
+                        f"Error in {self.name}: the region contains "
+                        f"'{stmt}' which would transfer control out of the "
+                        f"region without closing it.")
+
         my_options = self.merge_in_default_options(options)
         if "region_name" in my_options:
             name = my_options["region_name"]
